@@ -320,7 +320,8 @@ func (x *Exec) frameObligations(out, entry *State, penv *SpecEnv) {
 	sort.Strings(names)
 	for _, prefix := range names {
 		// find the concrete array names (with leaf) that exist under this prefix
-		for name, sort_ := range x.heapSorts {
+		for _, name := range x.sortedHeapNames() {
+			sort_ := x.heapSorts[name]
 			if !(name == prefix || strings.HasPrefix(name, prefix+".") || strings.HasPrefix(name, prefix+"|") || strings.HasPrefix(name, prefix)) {
 				continue
 			}
@@ -430,8 +431,22 @@ func discharge(res *FuncResult, opts VerifyOpts, sem chan struct{}) {
 			o.Result = &SolverResult{Status: "unsat", Solver: "trivial"}
 			continue
 		}
+		if !opts.Thorough && os.Getenv("GOVC_OVERLAY") == "" {
+			if sv, ok := cacheGet(x.cacheKey(o)); ok {
+				o.Result = &SolverResult{Status: "unsat", Solver: "cached"}
+				_ = sv
+				continue
+			}
+		}
 		pending = append(pending, o)
 	}
+	defer func() {
+		for _, o := range pending {
+			if o.Result != nil && o.Result.Status == "unsat" && o.Kind != "cover" {
+				cachePut(x.cacheKey(o), o.Result.Solver)
+			}
+		}
+	}()
 	run := func(obls []*Obligation, needAll bool) SolverResult {
 		acquire(sem, portfolioWidth)
 		defer release(sem, portfolioWidth)
